@@ -84,6 +84,19 @@ def parse_tmpl(t):
     return t[:i], split_targs(t[i + 1:-1])
 
 
+def balanced(x):
+    """parentheses of x are balanced and never close below the start"""
+    d = 0
+    for ch in x:
+        if ch == '(':
+            d += 1
+        elif ch == ')':
+            d -= 1
+            if d < 0:
+                return False
+    return d == 0
+
+
 def strip_cvref(t):
     t = t.strip()
     isref = False
@@ -793,7 +806,7 @@ class FuncEmitter:
         k = s['kind']
         self.terminated = False
         self.stmt_(s)
-        if k in ('ReturnStmt', 'BreakStmt'):
+        if k in ('ReturnStmt', 'BreakStmt', 'ContinueStmt'):
             self.terminated = True
         elif k == 'CompoundStmt':
             self.terminated = self.ends_in_jump(s)
@@ -803,7 +816,7 @@ class FuncEmitter:
             self.terminated = False
 
     def ends_in_jump(self, s):
-        if s['kind'] in ('ReturnStmt', 'BreakStmt'):
+        if s['kind'] in ('ReturnStmt', 'BreakStmt', 'ContinueStmt'):
             return True
         if s['kind'] == 'CompoundStmt' and s.get('inner'):
             return self.ends_in_jump(s['inner'][-1])
@@ -922,6 +935,12 @@ class FuncEmitter:
             for c in self.all_cleanups(self.loop_depth_scopes[-1]):
                 self.out(c)
             self.out('break;')
+        elif k == 'ContinueStmt':
+            if not self.loop_depth_scopes:
+                abort('continue outside loop', s)
+            for c in self.all_cleanups(self.loop_depth_scopes[-1]):
+                self.out(c)
+            self.out('continue;')
         elif k == 'NullStmt':
             self.out(';')
         elif k in EXPR_KINDS:
@@ -1015,7 +1034,19 @@ class FuncEmitter:
             self.vars[d['id']] = dict(c=name, ref=is_ref, T=t)
             ct = self.ctype(t)
             if is_ref:
-                self.out('%s *%s = &(%s);' % (ct, name, self.expr(init[0])))
+                s_init = s0 = self.expr(init[0])
+                while s0.startswith('(') and s0.endswith(')') and balanced(s0[1:-1]):
+                    s0 = s0[1:-1]
+                m = re.match(r'^(.+)->(\w+)$', s0)
+                if m and balanced(m.group(1)) and re.match(r'^\w+\(.*\)$', m.group(1)):
+                    # reference to a MEMBER of the object a call returns a pointer to (`auto& e = it->second`): keep the
+                    # pointer to the enclosing object and name the member at every use.  Same meaning as a pointer to
+                    # the member (the call is evaluated once, here); CBMC resolves `node->member` through a pointer to
+                    # the element of an unbounded array, it does not resolve a pointer into the middle of an element.
+                    self.out('__typeof__(%s) %s__of = %s;' % (m.group(1), name, m.group(1)))
+                    self.vars[d['id']]['alias'] = '%s__of->%s' % (name, m.group(2))
+                else:
+                    self.out('%s *%s = &(%s);' % (ct, name, s_init))
             elif not init:
                 self.out('%s %s;' % (ct, name))
             else:
@@ -1122,6 +1153,8 @@ class FuncEmitter:
                 if rd.get('name') == 'nullopt':
                     return '((cstl_opt){false, 0})'
                 abort('reference to unknown variable %s' % rd.get('name'), e)
+            if v.get('alias'):
+                return '(%s)' % v['alias']
             return '(*%s)' % v['c'] if v['ref'] else v['c']
         if rk == 'BindingDecl':
             b = self.bindings.get(rd['id'])
@@ -1275,6 +1308,9 @@ class FuncEmitter:
         if name == 'next' and len(args) == 1:
             t = self.cls(args[0])
             if t.k == 'iter' and t.fam == 'list':
+                m = self.model_for_iter(t, e)
+                return '%s_next(%s, %s)' % (m.name, self.pool(m), self.expr(args[0]))
+            if t.k == 'iter' and t.fam == 'tree' and self.model_for_iter(t, e).kind == 'mmap':
                 m = self.model_for_iter(t, e)
                 return '%s_next(%s, %s)' % (m.name, self.pool(m), self.expr(args[0]))
             abort('std::next over %s' % t.src, e)
@@ -1434,8 +1470,12 @@ class FuncEmitter:
             if bt.k == 'mmap':
                 if name == 'begin' and not A:
                     return '%s_begin(%s, &%s)' % (m.name, P, b)
+                if name == 'end' and not A:
+                    return '%s_end(%s, &%s)' % (m.name, P, b)
                 if name == 'size' and not A:
                     return '%s_size(&%s)' % (m.name, b)
+                if name == 'empty' and not A:
+                    return '(%s_size(&%s) == 0)' % (m.name, b)
                 if name == 'emplace' and len(A) == 2:
                     return '%s_emplace(%s, &%s, %s, %s)' % (m.name, P, b, A[0], A[1])
                 if name == 'erase' and len(A) == 1:
@@ -1490,6 +1530,8 @@ class FuncEmitter:
                 if byptr:
                     sa = self.strip_wrappers(a)
                     v = self.vars.get(sa.get('referencedDecl', {}).get('id')) if sa['kind'] == 'DeclRefExpr' else None
+                    if v and v.get('alias'):
+                        return '&(%s)' % v['alias']
                     if v and v['ref']:
                         return v['c']
                     return '&(%s)' % x
@@ -1548,6 +1590,9 @@ class FuncEmitter:
             if t0.k == 'iter' and t0.fam == 'list':
                 m = self.model_for_iter(t0, e)
                 return '(%s = %s_%s(%s, %s))' % (x, m.name, 'next' if op == '++' else 'prev', self.pool(m), x)
+            if t0.k == 'iter' and t0.fam == 'tree' and op == '++' and self.model_for_iter(t0, e).kind == 'mmap':
+                m = self.model_for_iter(t0, e)
+                return '(%s = %s_next(%s, %s))' % (x, m.name, self.pool(m), x)
             abort('%s on %s' % (op, t0.src), e)
         if op == '=':
             t1 = self.cls(args[1])
